@@ -37,6 +37,10 @@ CLAIMS = {
          'Interleavings at lock-acquisition granularity: all shared state is guarded by the config mutex; network callbacks run unlocked on thread-local data. Memory-model effects below that granularity are outside the model.'),
  'C12': ('proof', 'PARTIAL (structural half). C12_call_trace_wf: for every call from every world the calling thread never re-enters the config mutex, runs every network callback with it released, tries the update mutex only with it released, and holds nothing on return; C12_second_update_refused; C12_step_decreases_work / C12_block_advances (no call waits while holding a lock, every call terminates, no waiting cycle). Correspondence: the real per-call lock/network action trace (verif-hooks sync events + thread-local lock depth read inside the network callbacks) equals the model trace on every call of exhaustive histories; hung-connection scenarios with a stalled patch check and a second thread issuing queries, reports, a check and a second update.',
          'Wall-clock promptness is runtime behaviour: only a 5 s bound in the hung-connection scenarios is enforced. OS mutex fairness is assumed.'),
+ 'C13': ('proof', 'PARTIAL by nature. C13_sites_are_the_ledger (the explicit panic sites / unsafe blocks / thread spawns of the current non-test sources, regenerated by the translator, equal the audited ledger with a guard per site) and C13_total_and_in_domain (every call of the model returns a value of its documented domain from every world). Exercised, not proved: malformed JSON/YAML/fs layouts, extreme response values, random call orders with a panic hook on every thread and exit-status monitoring.',
+         'Panics inside dependencies (serde, zstd, ring, reqwest, std thread spawn) cannot be modelled; the JSON/YAML text level is abstracted (JGarbage).'),
+ 'C15': ('proof', 'PARTIAL. Over tables regenerated from the Rust sources, the generated header and the Dart bindings on every run: C15_status_constants, C15_status_discriminants, C15_model_status_codes, C15_signatures, C15_structs, C15_layouts (LP64/ILP32/LLP64), C15_dart_handles_all_statuses, plus a small ownership ledger model. Checked outside the proof: nm -D of the cdylib, every status provoked through the C API, one scenario under valgrind memcheck.',
+         'Translator is regex-level and fails loudly on unknown shapes; real allocator behaviour is runtime (valgrind), not proved.'),
 }
 NA = {}
 def main():
